@@ -16,6 +16,7 @@ are false of the pinned source (namespace `Neg`): they are proved
 -/
 import LinVerif.Lemmas.C06Conc
 import LinVerif.Lemmas.C06WriteThrough
+import LinVerif.Lemmas.C06Reset
 import LinVerif.Model.FanOutPark
 import LinVerif.Generated.C06
 
@@ -655,6 +656,54 @@ theorem consume_vs_ack_persist (v : Variant) (s : State) (hb : Base s) (ho : Ord
   rw [hm, newGroup_some_id v _ _ habv hord]
   rfl
 
+/-! ## explicit index reset, and a failed start-up
+
+`FanOutQueue.SetAppendedSeq n` puts the queue AND every live group to (n, n) (`fanOutSetAppendedConds
+= []`: no group is skipped, tie `guards_tie`). The reset itself is outside clause (1); what it leaves
+behind satisfies every clause again, and they keep holding afterwards. -/
+
+/-- right after the reset: queue appended = queue ack = n, every live group consumed = ack = n, so
+queue ack = the minimum of the group acks and ack ≤ consumed ≤ appended for every group — from ANY
+state reached by ANY history (resets included). -/
+theorem index_reset_positions (v : Variant) (ops : List Op) (n : Int) (g : Nat) (grp : Group)
+    (hl : lookup (run v State.init (ops ++ [.setAppended n])).live g = some grp) :
+    grp.consumed = n ∧ grp.ack = n ∧
+    (run v State.init (ops ++ [.setAppended n])).q.appended = n ∧ (run v State.init (ops ++ [.setAppended n])).q.ack = n := by
+  rw [run_append] at hl ⊢
+  have := setAppended_live _ n g grp hl
+  exact ⟨this.1, this.2, rfl, rfl⟩
+
+/-- after the reset (to n ≥ -1, every group directory belonging to a live group) and ANY reset-free
+continuation, for every live group: queue ack ≤ ack ≤ consumed ≤ appended — whatever the history
+before the reset was. (For the pinned-source variants: outside the two excluded regions.) -/
+theorem invariants_after_index_reset (v : Variant) (ops suffix : List Op) (n : Int) (hn : -1 ≤ n)
+    (hall : ∀ g m, lookup (run v State.init ops).metas g = some m → ∃ grp, lookup (run v State.init ops).live g = some grp)
+    (hv : Valid v (fun s o => o.okAt s ∧ (v.liftConsumed = true ∨ o.restoreOrderedAt s) ∧
+        (v.freshAtQueueAck = true ∨ o.freshOkAt s)) ((run v State.init ops).setAppended n) suffix)
+    (g : Nat) (grp : Group)
+    (hl : lookup (run v State.init (ops ++ .setAppended n :: suffix)).live g = some grp) :
+    (run v State.init (ops ++ .setAppended n :: suffix)).q.ack ≤ grp.ack ∧ grp.ack ≤ grp.consumed ∧
+      grp.consumed ≤ (run v State.init (ops ++ .setAppended n :: suffix)).q.appended := by
+  have hw : WT (run v State.init ops) := WT.run v ops _ WT.init
+  have h0 := setAppended_establishes (run v State.init ops) n hw hn hall
+  have hinv := inv_run (v := v) (I := fun s => Lite s ∧ Order s ∧ Above s)
+    (fun s o hi ok => ⟨hi.1.step ok.1, Order.stepL hi.1 hi.2.1 ok.1 ok.2.1, Above.stepL hi.1 hi.2.2 ok.1 ok.2.2⟩)
+    suffix _ h0 hv
+  rw [run_append] at hl ⊢
+  change lookup (run v ((run v State.init ops).setAppended n) suffix).live g = some grp at hl
+  show (run v ((run v State.init ops).setAppended n) suffix).q.ack ≤ _ ∧ _ ∧ _ ≤ (run v ((run v State.init ops).setAppended n) suffix).q.appended
+  exact ⟨hinv.2.2 g grp hl, hinv.2.1.liveL hinv.1 g grp hl⟩
+
+/-- a start-up that fails while constructing group `g` (NewFanOutQueue returns the error, nothing is
+open) followed by the retry restores exactly what a plain reopen restores — queue positions and
+every group; with `persist` / `persist_with_resets`: nothing moved. (`init_groups_tie`: the loop
+returns the error, it does not skip the group.) -/
+theorem reopen_after_failed_start (v : Variant) (s : State) (g : Nat) :
+    (s.reopenFault v g).q.appended = (step v s .reopen).1.q.appended ∧
+    (s.reopenFault v g).q.ack = (step v s .reopen).1.q.ack ∧
+    ∀ k, lookup (s.reopenFault v g).live k = lookup (step v s .reopen).1.live k :=
+  reopenFault_eq_reopen v s g
+
 /-! ## ties to the regenerated facts (harness/internal/extract/facts_c06.go) -/
 
 /-- the source's `NewConsumerGroup` is one of the modelled variants -/
@@ -778,11 +827,12 @@ theorem lock_sections_tie :
     Generated.C06.consumeCalls.take 2 = ["lock4headSeq.Lock", "defer:lock4headSeq.Unlock"] ∧
     Generated.C06.consumeLockedCalls = Generated.C06.consumeCalls := by decide
 
-/-- `initConsumerGroups` constructs and registers a group for every directory it lists -/
+/-- `initConsumerGroups` constructs and registers a group for every directory it lists and RETURNS
+the error of a group that cannot be constructed (short tokens per loop statement, see
+`c06RangeBodyKinds`); `FanOutQueue.SetAppendedSeq` calls `SetSeq` on every group unconditionally. -/
 theorem init_groups_tie :
-    Generated.C06.initConsumerGroupsLoop =
-      ["fo, err := newConsumerGroupFunc(fq.consumerGroupDir, fn, fq)", "if err != nil { return err }",
-       "fq.consumerGroups[fn] = fo"] ∧
+    Generated.C06.initConsumerGroupsLoop = ["call:newConsumerGroupFunc", "if:return", "store:consumerGroups"] ∧
+    Generated.C06.fanOutSetAppendedLoop = ["call:fo.SetSeq"] ∧
     essential ["mkDirFunc", "listDirFunc", "newConsumerGroupFunc"] Generated.C06.initConsumerGroupsCalls =
       ["mkDirFunc", "listDirFunc", "newConsumerGroupFunc"] ∧
     Generated.C06.newFanOutQueueCalls.getLast? = some "fq.initConsumerGroups" := by decide
@@ -913,6 +963,33 @@ theorem ack_persist_outside_lock_fails :
     s1.2 = .val 1 ∧ lookup s2.live 0 = some ⟨1, 0, false⟩ ∧
     lookup (step Variant.fixed s2 .reopen).1.live 0 = some ⟨0, 0, false⟩ ∧
     (step Variant.fixed (step Variant.fixed s2 .reopen).1 (.consume 0)).2 = .val 1 := by decide
+
+/-- seeded shape c06-13 (reset loop skips a group already at the target): group 0 at consumed 9 /
+ack 3, index reset to 9 ⇒ queue ack 9 above the live group's ack 3; sequence 5, which the group has
+not acknowledged, is refused by Get. The modelled reset puts the group to (9, 9). -/
+theorem reset_skipping_group_fails :
+    let s := run Variant.fixed State.init ([.create 0] ++ rep 12 (.append 1) ++ rep 10 (.consume 0) ++ [.ack 0 3])
+    lookup (s.setAppendedSkip 9).live 0 = some ⟨9, 3, false⟩ ∧ (s.setAppendedSkip 9).q.ack = 9 ∧
+    (s.setAppendedSkip 9).q.get 5 = .outOfRange ∧
+    lookup (s.setAppended 9).live 0 = some ⟨9, 9, false⟩ := by decide
+
+/-- seeded shape c06-14 (remembered appended position survives a backward reset): hint 10, the reset
+put consumed and appended to 4 ⇒ sequence 5 is handed out although appended is 4; with the hint
+invalidated (-1) nothing is handed out. -/
+theorem stale_appended_hint_fails :
+    consumeWithHint 10 4 4 = (some 5, 10) ∧ (5 : Int) > 4 ∧ consumeWithHint (-1) 4 4 = (none, 4) := by decide
+
+/-- seeded shape c06-15 (a group that fails to load is skipped): groups 0 (ack 10) and 1 (ack 2);
+start-up skips group 1; Sync moves the queue ack to 10; when group 1 is obtained again it comes back
+at (10, 10) instead of (3, 2). With the modelled start-up (error + retry) it is still (3, 2) and the
+queue ack stays 2. -/
+theorem skipped_group_at_startup_fails :
+    let s := run Variant.fixed State.init ([.create 0, .create 1] ++ rep 12 (.append 1) ++ rep 11 (.consume 0) ++
+      [.ack 0 10] ++ rep 4 (.consume 1) ++ [.ack 1 2, .sync])
+    let bad := run Variant.fixed (s.reopenSkipping Variant.fixed 1) [.sync, .gc, .create 1]
+    let good := run Variant.fixed (s.reopenFault Variant.fixed 1) [.sync, .gc, .create 1]
+    s.q.ack = 2 ∧ bad.q.ack = 10 ∧ lookup bad.live 1 = some ⟨10, 10, false⟩ ∧
+    good.q.ack = 2 ∧ lookup good.live 1 = some ⟨3, 2, false⟩ := by decide
 
 end Neg
 
